@@ -25,6 +25,9 @@ type SharedCase struct {
 	Messages [][]interface{}          `json:"messages"`
 	Rounds   int                      `json:"rounds"`
 	Swap     bool                     `json:"swap,omitempty"`
+	// Derive: the swapper prepares each next version the way an updater
+	// does: Copy of the published version, Compile, SetSpec.
+	Derive bool `json:"derive,omitempty"`
 }
 
 func genShared(t *rapid.T) SharedCase {
@@ -43,6 +46,9 @@ func genShared(t *rapid.T) SharedCase {
 	}
 	c.Rounds = rapid.IntRange(1, 3).Draw(t, "rounds")
 	c.Swap = rapid.IntRange(0, 2).Draw(t, "swap") == 0
+	if c.Swap {
+		c.Derive = rapid.Bool().Draw(t, "derive")
+	}
 	return c
 }
 
@@ -208,6 +214,41 @@ func checkShared(c SharedCase) (v ev.Verdict) {
 		exp["v1"][i] = walkObs(s1, c.Nodes[i], c.States[i], c.Messages[i])
 		exp["v2"][i] = walkObs(s2, c.Nodes[i], c.States[i], c.Messages[i])
 	}
+	// derived versions: what an updater makes from a published version,
+	// prepared sequentially first to learn what they do
+	derive := func(from *core.Spec) *core.Spec {
+		next := from.Copy("d")
+		if err := next.Compile(context.Background(), nil, false); err != nil {
+			return nil
+		}
+		return next
+	}
+	if c.Derive {
+		d0 := derive(s1)
+		var d1 *core.Spec
+		if d0 != nil {
+			d1 = derive(d0)
+		}
+		if d0 == nil || d1 == nil {
+			c.Derive = false
+			v.Class("derive-does-not-compile")
+		} else {
+			exp["d"] = make([]string, n)
+			for i := 0; i < n; i++ {
+				exp["d"][i] = walkObs(d0, c.Nodes[i], c.States[i], c.Messages[i])
+				if walkObs(d1, c.Nodes[i], c.States[i], c.Messages[i]) != exp["d"][i] {
+					// a copy of a copy is not the same specification:
+					// no single expectation to compare with
+					c.Derive = false
+					v.Class("derive-unstable")
+					break
+				}
+			}
+		}
+	}
+	if c.Derive {
+		v.Class("swap-derive")
+	}
 	us := core.NewUpdatableSpec(s1)
 	stop := make(chan struct{})
 	var swaps int
@@ -221,7 +262,11 @@ func checkShared(c SharedCase) (v ev.Verdict) {
 				return
 			default:
 			}
-			if swaps%2 == 0 {
+			if c.Derive && swaps%4 != 3 {
+				if next := derive(us.Spec()); next != nil {
+					us.SetSpec(next)
+				}
+			} else if swaps%2 == 0 {
 				us.SetSpec(s2)
 			} else {
 				us.SetSpec(s1)
@@ -240,7 +285,7 @@ func checkShared(c SharedCase) (v ev.Verdict) {
 			for r := 0; r < 3*c.Rounds; r++ {
 				sp := us.Spec()
 				got := walkObs(sp, c.Nodes[i], c.States[i], c.Messages[i])
-				if got != exp["v1"][i] && got != exp["v2"][i] {
+				if got != exp["v1"][i] && got != exp["v2"][i] && (!c.Derive || got != exp["d"][i]) {
 					bads[i] = fmt.Sprintf("machine %d: a walk under concurrent swaps matches neither version:\n got %s\n v1  %s\n v2  %s", i, ev.Trunc(got, 500), ev.Trunc(exp["v1"][i], 500), ev.Trunc(exp["v2"][i], 500))
 					return
 				}
